@@ -1,15 +1,154 @@
-"""C02 — solver stream (see rv/solverstream.py)."""
-from rv import solverstream as SS
+"""C02 — The output is exactly the transitive closure of the inputs."""
+from __future__ import annotations
 
-RULE = ("random package universes (<= 6 projects x <= 3 versions x <= 3 requirements; shapes: acyclic conflict-free, acyclic with "
-        "conflicts, cyclic, self-referential, extras-heavy; spelling variants; unpinned and fully pinned constraint files) solved by "
-        "the real perform_compile over an in-memory repository and by the Lean solver model; outcome class, full graph, roots and "
-        "NoCandidate requirement are compared; non-trivial = any invalidation, walk-back, constraint file or failure outcome")
+import os
+import re
+import shutil
+import tempfile
+
+from rv.core import Stream
+from rv import graphlib as GL
+from rv import solverstream as SS
+from rv import backends as B
+
+RULE = ("(1) compile: random package universes (<= 6 projects x <= 3 versions x <= 3 requirements; shapes: acyclic conflict-free, acyclic with "
+        "conflicts, cyclic, self-referential, extras-heavy, two hand-shaped families; spelling variants; unpinned and fully pinned constraint "
+        "files) solved by the real perform_compile over an in-memory repository and by the Lean solver model; outcome class, full graph, roots "
+        "and NoCandidate requirement are compared; (2) cli-constraints: the real command line on wheels in a find-links directory with a "
+        "constraints file that carries, besides constraints on used and unused projects, option lines (-e <local project>, --find-links, "
+        "--index-url): the emitted pins must be the closure of the *inputs* - what is reachable only through the constraints file, its "
+        "option lines included, is never emitted; non-trivial = hits a flag")
 ASSUMPTIONS = [
     "the repository is the trivial instance of the C03 model (every offered version readable, installable, final)",
     "versions.is_possible verdicts for the merged label pairs of each run and set iteration orders are read off the real run",
 ]
 
 
+class CliConstraints(Stream):
+    name = "cli-constraints"
+    quick_n = 120
+    thorough_n = 5000
+    batch = 40
+
+    def setup(self):
+        self.tmp = tempfile.mkdtemp(prefix="rvc02")
+
+    def teardown(self):
+        shutil.rmtree(getattr(self, "tmp", ""), ignore_errors=True)
+
+    def generate(self, rng):
+        case = SS.gen_universe(rng, rng.choice(["dag-free", "dag-free", "dag", "extras"]))
+        names = list(case["universe"])
+        cons = []
+        for n in rng.sample(names, rng.randint(0, len(names))):
+            cons.append(rng.choice(SS.SPELL[n]) + rng.choice(["", "<9", ">=0.1", "!=9.9"]))
+        opts = []
+        if rng.random() < 0.6:
+            opts.append("-e tooling")
+        if rng.random() < 0.3:
+            opts.append("--find-links morelinks")
+        if rng.random() < 0.2:
+            opts.append("--extra-index-url http://127.0.0.1:9/simple")
+        rng.shuffle(opts)
+        case["constraints"] = []
+        case["cons_lines"] = cons
+        case["cons_options"] = opts
+        case["tooling_requires"] = [rng.choice(SS.SPELL[rng.choice(names)])]
+        return case
+
+    def _run(self, case, d, with_options):
+        from rv.props.c07 import write_inputs
+        from rv.props.c09 import run_cli
+        files = write_inputs(d, case["inputs"])
+        lines = list(case["cons_lines"]) + (list(case["cons_options"]) if with_options else [])
+        with open(os.path.join(d, "cons.txt"), "w") as f:
+            f.write("\n".join(lines) + "\n")
+        r = run_cli(d, files, extra=["-c", "cons.txt"])
+        pins = {}
+        for l in r["stdout"].splitlines():
+            m = re.match(r"^([A-Za-z0-9._-]+)==(\S+)", l)
+            if m:
+                pins[GL.norm(m.group(1))] = m.group(2)
+        return {"code": r["code"], "exception": r["exception"], "pins": pins, "stderr_tail": r["stderr"][-200:]}
+
+    def impl(self, case):
+        from rv.core import digest
+        from rv.props.c07 import materialise
+        GL.reset_caches()
+        d = os.path.join(self.tmp, digest(case))
+        shutil.rmtree(d, ignore_errors=True)
+        os.makedirs(d)
+        materialise(case, d)
+        os.makedirs(os.path.join(d, "morelinks"))
+        B.write_source_project(os.path.join(d, "tooling"), "tooling", "0.1", requires=case["tooling_requires"])
+        out = {"plain": self._run(case, d, False)}
+        GL.reset_caches()
+        out["with_options"] = self._run(case, d, True)
+        shutil.rmtree(d, ignore_errors=True)
+        return out
+
+    def flags(self, case, r):
+        fl = ["exit:%s" % r["plain"]["code"]]
+        if case["cons_options"]:
+            fl.append("constraints-file-has-option-lines")
+        if "-e tooling" in case["cons_options"]:
+            fl.append("editable-in-constraints")
+        used = set(r["plain"]["pins"])
+        if any(GL.norm(re.match(r"^[A-Za-z0-9._-]+", c).group(0)) not in used for c in case["cons_lines"]):
+            fl.append("constraint-on-unused-project")
+        return fl
+
+    def oracle(self, case, r):
+        fails = []
+        a, b = r["plain"], r["with_options"]
+        if b["exception"]:
+            return [("C02/cli-traceback-with-constraint-options", {"exception": b["exception"], "stderr": b["stderr_tail"]})]
+        if a["code"] == 0:
+            # closure from the inputs, computed on the universe with the pins found
+            U = {}
+            for n, vs in case["universe"].items():
+                U[GL.norm(n)] = {str(GL.V(v)): reqs for v, reqs in vs.items()}
+            reach, todo = set(), []
+            for rs in case["inputs"]:
+                for t in rs:
+                    q = GL.P(t)
+                    todo.append((GL.norm(q.name), set(q.extras)))
+            extras_req = {}
+            while todo:
+                k, ex = todo.pop()
+                new = ex - extras_req.get(k, set())
+                if k in reach and not new:
+                    continue
+                reach.add(k)
+                extras_req.setdefault(k, set()).update(ex)
+                v = a["pins"].get(k)
+                if v is None or k not in U or str(GL.V(v)) not in U[k]:
+                    continue
+                for t in U[k][str(GL.V(v))]:
+                    q = GL.P(t)
+                    if q.marker is not None:
+                        ok = any(q.marker.evaluate({"extra": e}) for e in extras_req[k]) or q.marker.evaluate({"extra": ""})
+                        if not ok:
+                            continue
+                    todo.append((GL.norm(q.name), set(q.extras)))
+            extra = sorted(set(a["pins"]) - reach)
+            if extra:
+                fails.append(("C02/emitted-but-not-reachable-from-inputs", {"pins": extra}))
+        if a["code"] == 0 and (b["code"] != 0 or b["pins"] != a["pins"]):
+            only = sorted(set(b["pins"]) - set(a["pins"]))
+            fails.append(("C02/constraints-file-option-lines-change-the-output", {"options": case["cons_options"], "without": a["pins"], "with": b["pins"],
+                                                                                 "only_with_options": only, "exit": b["code"]}))
+        return fails
+
+    def shrink(self, case):
+        for i in range(len(case["cons_options"])):
+            yield dict(case, cons_options=case["cons_options"][:i] + case["cons_options"][i + 1:])
+        for i in range(len(case["cons_lines"])):
+            yield dict(case, cons_lines=case["cons_lines"][:i] + case["cons_lines"][i + 1:])
+        from rv.props.c07 import CliVariants
+        for c in CliVariants.shrink(self, case):
+            yield c
+
+
 def streams():
-    return [SS.CompileStream("C02")]
+    return [SS.CompileStream("C02"), CliConstraints()]
